@@ -165,12 +165,47 @@ def render_contract(fn, lines_out, stub=False, trait_impl=False):
     return out
 
 
+def req_canary(fn, head, header, idx):
+    """vacuity guard: `requires R ensures false` must FAIL, i.e. the declared preconditions of fn are satisfiable.
+    Best effort: signatures with generics, `impl Trait` / `Self` / lifetime-carrying types are skipped."""
+    if not fn.requires:
+        return None
+    m = re.match(r'fn\s+\w+\s*\((.*)\)\s*$', head.strip(), re.S)
+    if not m:
+        return None
+    out = []
+    for prm in _split_top(m.group(1)):
+        prm = ' '.join(prm.split())
+        if not prm:
+            continue
+        if prm in ('self', '&self', '&mut self', 'mut self'):
+            if header is None or header.startswith('impl<'):
+                return None
+            ty = header.split(' for ', 1)[1].strip() if ' for ' in header else header[len('impl'):].strip()
+            out.append('self_: ' + ('&' if prm.startswith('&') else '') + ty)
+            continue
+        name, _, ty = prm.partition(':')
+        name = name.strip()
+        if name.startswith('mut '):
+            name = name[4:]
+        ty = ty.strip()
+        if not re.fullmatch(r'\w+', name) or 'impl ' in ty or 'Self' in ty or "'" in ty or 'dyn ' in ty:
+            return None
+        ty = re.sub(r'^&\s*mut\s+', '&', ty)
+        out.append('%s: %s' % (name, ty))
+    reqs = [clause(c, '')[1] for c in fn.requires]
+    reqs = [re.sub(r'\bold\(\s*(\w+)\s*\)', r'\1', r) for r in reqs]
+    reqs = [re.sub(r'\bself\b', 'self_', r) for r in reqs]
+    return 'proof fn canary_req_%d(%s) requires %s ensures false {} //@[canary.req.%s]' % (idx, ', '.join(out), ', '.join('(%s)' % r for r in reqs), fn.short)
+
+
 class Gen:
     def __init__(self, crate, log=None):
         self.crate = crate
         self.log = log or rules.Log()
         self.fingerprints = {}
         self.outlined = []
+        self.req_canaries = []
 
     # ---- one function
     def fn_text(self, fn, stub=False):
@@ -280,6 +315,13 @@ class Gen:
             lines.append('#[verifier::external_body]')
         lines.append('%s%s%s %s' % (vis, head, retdecl, where))
         lines += render_contract(fn, lines, stub or outl, trait_impl=is_trait_impl)
+        if not stub and not fn.outline and not fn.sig_sub and not fn.name_as:
+            try:
+                cn = req_canary(fn, head, header, len(self.req_canaries) + 1)
+            except Exception:
+                cn = None
+            if cn:
+                self.req_canaries.append(cn)
         if stub:
             lines.append('{ unimplemented!() }')
         elif fn.outline and is_trait_impl:
@@ -735,6 +777,8 @@ class Gen:
         # canaries (must FAIL): axiom consistency + one per function with requires
         parts.append('//@canary-begin')
         parts.append('proof fn canary_axioms() ensures false {} //@[canary.axioms]')
+        parts += self.req_canaries
+        self.req_canaries = []
         parts.append('//@canary-end')
         parts.append('} // verus!')
         parts.append('} // mod unit')
